@@ -10,7 +10,7 @@ def openMachine (args : List String) (hin hout : IO.FS.Stream) : Option (IO Bool
   | "socbus" :: rest => (parseSoc rest).map fun c => serve (numBus c.n c.m (SocBus.machine c)) hin hout
   | "socglue" :: rest =>
     match parseGlue rest with
-    | some (.built c) => some (serve (numBus c.n c.m (SocBus.machine c)) hin hout)
+    | some (.built c) => some (serve (numBus c.soc.n c.soc.m (SocRBus.machine c)) hin hout)
     | _ => none
   | _ => none
 
@@ -27,6 +27,10 @@ def call (args : List String) : Option String :=
     | _ => none
   | "socglue" :: rest => (parseGlue rest).map showGlue
   | "overlap" :: rest => callOverlap rest
+  | "remapadr" :: rest =>          -- remapadr <origin> <size> <dw> <aw> <a>
+    match rest.mapM (·.toNat?) with
+    | some [o, sz, dw, aw, a] => some (toString (remapAdr o sz (Nat.log2 (dw / 8)) aw a))
+    | _ => none
   | "topology" :: rest =>          -- same arguments as `open socbus`
     (parseSoc rest).map fun c => topologyName c.topology
   | "rrnext" :: rest =>
